@@ -107,9 +107,10 @@ def snapshot(page, secs):
     return [list(page.nodes)] + [(list(s.nodes), s.nodes._start, s.nodes._stop) for s in secs]
 
 
-def oracle(page, secs, snap, tgt, edited_ok):
+def oracle(page, secs, snap, tgt, edited_ok, appended=False):
     """Property C11 after one edit. snap = state before; tgt = index of the object the edit went
-    through (-1 page, k section) or None (nested / string edit)."""
+    through (-1 page, k section) or None (nested / string edit).  appended: the edit was page.append(nodes):
+    the edited place is the end of the page, which every section that ran to the end of the page contains."""
     old_page = snap[0]
     try:
         new_page = list(page.nodes)
@@ -128,6 +129,9 @@ def oracle(page, secs, snap, tgt, edited_ok):
         a, b = s.nodes._start, s.nodes._stop
         if not (0 <= a <= b <= len(new_page)) or [id(n) for n in cur] != new_ids[a:b]:
             return "section %d is not a contiguous run of the page's nodes (bounds %s:%s)" % (k, a, b)
+        if appended and edited_ok and oe == len(old_page) and len(new_page) > len(old_page) and b != len(new_page):
+            return ("page.append(): section %d ran to the end of the page (%d:%d of %d) and does not show the appended nodes (now %d:%d of %d)"
+                    % (k, os_, oe, len(old_page), a, b, len(new_page)))
         if k == tgt:
             if edited_ok and new_ids != [id(n) for n in old_page[:os_]] + [id(n) for n in cur] + [id(n) for n in old_page[oe:]]:
                 return "edit through section %d does not appear in the page at the section's place" % k
@@ -257,7 +261,7 @@ def run_model_history(seed, transform=None):
                 failure = (step, "unexpected exception %r" % (e,))
         recs.append(res + " | " + show_state(page, secs, ids))
         if failure is None and snap is not None:
-            msg = oracle(page, secs, snap, via, res == "ok")
+            msg = oracle(page, secs, snap, via, res == "ok", appended=(kind == 1 and tgt < 0))
             if msg:
                 failure = (step, msg)
         if res == "ok" and len(secs) >= 2:
